@@ -193,6 +193,17 @@ def r_lock_4( ctx ):
             res.ok( src, c, '%s under setup.lock' % what )
         else:
             res.bad( src, c, c, '%s outside `with setup.lock`: two first sessions can both create the objects' % what )
+    # no fast path around the lock: every return of setup() has passed through `with setup.lock` (setup.ucmm is stored BEFORE the tags
+    # are created, so an unlocked "already set up?" test lets another session run against a half-built device)
+    cfg = CFG( fn )
+    wn = [ n for n in cfg.nodes if n.kind == 'with' and n.stmt is withs[0] ]
+    rets = [ n for n in cfg.nodes if n.kind == 'stmt' and isinstance( n.stmt, ast.Return ) ]
+    early = [ r for r in rets if not cfg.must_pass( cfg.entry, r, wn, correlated=False ) ]
+    if early:
+        res.bad( src, early[0].stmt, 'setup() returns without having taken setup.lock: %s' % norm_text( early[0].stmt ),
+                 'an unlocked fast path lets a second session proceed while the first is still creating objects and tags under the lock (setup.ucmm is assigned before the tags exist): its valid requests fail with unknown object / unknown tag' )
+    elif rets:
+        res.ok( src, rets[-1].stmt, 'every return of setup() has passed through `with setup.lock`' )
     lk = [ s for s in src.tree.body if isinstance( s, ast.Assign ) and dotted( s.targets[0] ) == 'setup.lock' and is_call_to( s.value, 'threading.Lock', 'threading.RLock' ) ]
     if lk:
         res.ok( src, lk[0], 'setup.lock is a module-level lock' )
